@@ -18,7 +18,7 @@ import json
 import os
 import re
 import vlib
-from props.c19 import parse_ms, roles_of, DumpError, chunks, coq_value
+from props.c19 import parse_ms, roles_of, DumpError, chunks, coq_value, desc_term as c19_desc_term
 
 LEVEL = "proof"
 PID = "C20"
@@ -100,7 +100,7 @@ def value_ctx(dom, dump):
 
 
 def checked_keys(dom, dump):
-    """keys whose kind the context checks: pk_k leaves, multi keys, single-key descriptors, tr internal key"""
+    """keys whose kind the context checks: pk_k and pk_h leaves, multi keys, single-key descriptors, tr internal key"""
     tok = dump.split()
     out = []
     roles = roles_of(dom_kind(dom), dump)
@@ -110,7 +110,7 @@ def checked_keys(dom, dump):
             prev_tag = t
         elif r == "multi-key":
             out.append(int(t))
-        elif r == "key" and prev_tag in ("pk_k", "pkh", "wpkh", "sh-wpkh", "tr"):
+        elif r == "key" and prev_tag in ("pk_k", "pk_h", "pkh", "wpkh", "sh-wpkh", "tr"):
             out.append(int(t))
     return out
 
@@ -250,19 +250,7 @@ def gen_coq(o):
         return t
 
     def desc_term(dump):
-        tok = dump.split()
-        k = tok[0]
-        if k in ("pkh", "wpkh", "sh-wpkh"):
-            return "(%s %s)" % ({"pkh": "DPkh", "wpkh": "DWpkh", "sh-wpkh": "DShWpkh"}[k], tok[1])
-        if k == "tr":
-            n, pos, leaves = int(tok[2]), 3, []
-            for _ in range(n):
-                depth = tok[pos + 1]
-                t, pos = parse_ms(tok, pos + 2, [], nm)
-                leaves.append("(%s, %s)" % (depth, t))
-            return "(DTr %s [%s])" % (tok[1], "; ".join(leaves))
-        t, pos = parse_ms(tok, 1, [], nm)
-        return "(%s %s)" % ({"bare": "DBare", "wsh": "DWsh", "sh-wsh": "DShWsh", "sh": "DSh"}[k], t)
+        return c19_desc_term(dump, nm)
 
     body, tnames, dnames = [], [], []
     for dom in MS_DOMS + DESC_DOMS:
